@@ -141,9 +141,9 @@ pub fn c08_symdiff_fold<const N: usize, const M: usize>() {
 /// provided methods of the lazy iterators (an implementation may override them): nth / last / count / min / max against
 /// plain stepping of a clone, after a symbolic prefix
 macro_rules! lazy_provided {
-    ($mk:expr, $cap:expr) => {{
-        let (j, k, which) = (vf::any_usize(), vf::any_usize(), vf::any_u8());
-        vf::assume(which < 4 && k <= $cap);
+    ($mk:expr, $cap:expr, $which:expr) => {{
+        let (j, k, which) = (vf::any_usize(), vf::any_usize(), $which);
+        vf::assume(k <= $cap);
         let mut a = $mk;
         let mut i = 0usize;
         while i < $cap { if i < j { let _ = a.next(); } i += 1; }
@@ -192,11 +192,12 @@ macro_rules! lazy_provided {
 pub fn c08_provided<const N: usize, const M: usize, const OP: u8>() {
     let (a, _am) = any_u8_set::<N>();
     let (b, _bm) = any_u8_set::<M>();
-    match OP {
-        0 => lazy_provided!(a.union(&b), N + M),
-        1 => lazy_provided!(a.intersection(&b), N + M),
-        2 => lazy_provided!(a.difference(&b), N + M),
-        _ => lazy_provided!(a.symmetric_difference(&b), N + M),
+    // OP = 4 * operation + provided method: one query per pair
+    match OP / 4 {
+        0 => lazy_provided!(a.union(&b), N + M, OP % 4),
+        1 => lazy_provided!(a.intersection(&b), N + M, OP % 4),
+        2 => lazy_provided!(a.difference(&b), N + M, OP % 4),
+        _ => lazy_provided!(a.symmetric_difference(&b), N + M, OP % 4),
     }
 }
 
@@ -339,7 +340,7 @@ harnesses! {
     c08_intersection_fold: [0, 0] [1, 1] [2, 2] [3, 3] [1, 3] [3, 1] [0, 2] [2, 0];
     c08_difference_fold: [0, 0] [1, 1] [2, 2] [3, 3] [1, 3] [3, 1] [0, 2] [2, 0];
     c08_symdiff_fold: [0, 0] [1, 1] [2, 2] [3, 3] [1, 3] [3, 1] [0, 2] [2, 0];
-    c08_provided: [2, 2, 0] [2, 2, 1] [2, 2, 2] [2, 2, 3] [1, 2, 0] [2, 1, 1] [2, 1, 2] [1, 2, 3];
+    c08_provided: [2, 2, 4] [2, 2, 5] [2, 2, 6] [2, 2, 7] [2, 2, 8] [2, 2, 9] [2, 2, 10] [2, 2, 11] [1, 1, 0] [1, 1, 1] [1, 1, 2] [1, 1, 3] [1, 1, 12] [1, 1, 13] [1, 1, 14] [1, 1, 15] [2, 1, 0] [2, 1, 1] [2, 1, 2] [2, 1, 13];
     c08_sub: [0, 0] [1, 1] [2, 2] [3, 3] [1, 3] [3, 1];
     c08_difference_ref: [1, 1] [2, 2] [3, 2] [2, 3];
     c08_predicates: [0, 0] [1, 1] [2, 2] [3, 3] [1, 3] [3, 1] [0, 2] [2, 0];
@@ -354,7 +355,7 @@ harnesses! {
     c08_intersection_fold: [4, 4] [4, 2] [2, 4];
     c08_difference_fold: [4, 4] [4, 2] [2, 4];
     c08_symdiff_fold: [4, 4] [4, 2] [2, 4];
-    c08_provided: [3, 3, 0] [3, 3, 1] [3, 3, 2] [3, 2, 3];
+    c08_provided: [3, 2, 4] [3, 2, 5] [3, 2, 6] [3, 2, 7] [3, 2, 8] [3, 2, 9] [3, 2, 10] [3, 2, 11] [1, 2, 0] [1, 2, 1] [1, 2, 2] [1, 2, 3] [1, 2, 12] [1, 2, 13] [1, 2, 14] [1, 2, 15] [2, 1, 3] [2, 1, 12] [2, 1, 14] [2, 1, 15] [2, 2, 0] [2, 2, 1] [2, 2, 2] [2, 2, 13];
     c08_sub: [4, 4] [4, 2] [2, 4];
     c08_difference_ref: [3, 3] [4, 2];
     c08_predicates: [4, 4] [4, 2] [2, 4];
